@@ -33,11 +33,19 @@ def term_symbols(t, acc=None):
     return acc
 
 
+def canon_reg(name):
+    """q01, q007 are spellings of the registers q1, q7 (REGREF is 'q' [0-9]+)"""
+    import re
+    m = re.fullmatch(r"q0*([0-9]+)", name)
+    return "q" + m.group(1) if m else name
+
+
 def cmp_sym(term, expr, rtol=1e-9):
     if isinstance(expr, (int, float, complex, np.number)) and not isinstance(expr, (bool, np.bool_)):
         expr = sym.sympify(complex(expr) if isinstance(expr, (complex, np.complexfloating)) else float(expr))   # a constant is an expression too
     if not isinstance(expr, sym.Expr):
         return "expected a symbolic expression, got %r" % (expr,)
+    expr = expr.subs({s: sym.Symbol(canon_reg(str(s))) for s in expr.free_symbols}, simultaneous=True)
     names = term_symbols(term)
     free = {str(s) for s in expr.free_symbols}
     if free - names:
